@@ -115,6 +115,26 @@ def gen_random(rng, n):
     return out
 
 
+def gen_history(rng, k):
+    """Histories for one process: the same clause set presented again in another clause order, with the literals of every
+    clause reversed, with a clause repeated, with a literal repeated, and once more unchanged.  Every answer is judged
+    against ITS OWN input (a result remembered from an earlier call names the wrong clauses)."""
+    out = []
+    bases = [[[(0, True)], [(0, False), (1, True)], [(1, False), (2, True)], [(0, False), (2, False)]],
+             [[(0, True), (1, True)], [(0, False), (1, True)], [(0, True), (1, False)], [(0, False), (1, False)]]]
+    while len(bases) < k:
+        nv = rng.randint(3, 6)
+        bases.append(gen_ksat(rng, nv, int(nv * rng.uniform(4.0, 6.0)), [2, 3, 3]))
+    for base in bases[:k]:
+        perm = rng.sample(base, len(base))
+        rev = [list(reversed(cl)) for cl in base]
+        dupc = base[:1] + base if base else base
+        dupl = [cl + cl[:1] for cl in base]
+        rot = base[1:] + base[:1]
+        out += [base, perm, rev, dupc, dupl, rot, list(reversed(base)), base]
+    return out
+
+
 def gen_exhaustive(max_clauses):
     """All clause *lists* (as combinations, in pool order) over 3 variables: clauses are the
     multisets of width <= 3 over 6 literals written in a fixed order (84 of them)."""
@@ -406,6 +426,7 @@ def subterms_all(t):
 
 def tseitin_stage(ctx, only=None):
     from kernel import term as T, theory, report
+    from kernel.type import BoolType
     from logic import basic
     from prover import tseitin
     basic.load_theory('sat')
@@ -420,6 +441,17 @@ def tseitin_stage(ctx, only=None):
              T.And(a, T.Not(x1)), T.And(x1, T.Not(a)), T.Or(x2, T.And(x1, a)), T.Eq(x1, T.Not(x2)), x1,
              T.true, T.false, T.Not(T.true), T.And(a, T.false), T.Or(a, T.true), T.Eq(a, T.true), T.Implies(T.false, a),
              opaque[0], T.And(a, opaque[0]), T.Not(opaque[1]), T.Eq(opaque[2], a), T.And(opaque[3], T.Not(opaque[0]))]
+    x3, x4 = clash[2], clash[3]
+    fixed += [T.And(x1, x2), T.Or(x1, T.And(x2, x3)), T.Implies(T.And(x1, x2), T.Or(x3, x4)), T.And(T.Not(x2), T.Or(x3, a)),
+              T.Eq(T.And(x1, x2), T.And(x2, x1)), T.Not(T.Implies(T.And(x1, T.And(x2, x3)), x2))]
+    # atoms taken from an earlier encoding's output: the clauses of encode(a & b --> a | b) as a formula
+    try:
+        prev = tseitin.convert_cnf(tseitin.encode(T.Implies(T.And(a, b), T.Or(a, b))).prop)
+        lit = lambda nm, bv: T.Var(nm, BoolType) if bv else T.Not(T.Var(nm, BoolType))  # noqa
+        cls = [T.Or(*[lit(nm, bv) for nm, bv in cl]) for cl in prev]
+        fixed += [T.And(*cls[:3]), T.And(*cls), T.Not(T.And(*cls[:4]))]
+    except Exception:  # noqa
+        pass
     if only is not None:
         fixed, n = [t for t in only], 0
     for i in range(n + len(fixed)):
@@ -1221,6 +1253,7 @@ def run(ctx):
     for c in cases[:3]:
         ctx.sample({"cnf": c})
     have_model = check_cases(ctx, sat, cases, "random")
+    check_cases(ctx, sat, gen_history(ctx.rng("history"), ctx.scale(40, 300)), "history")
     if ctx.tier == "thorough":
         batch = []
         prng = ctx.rng("perm")
